@@ -73,6 +73,15 @@ pub(crate) struct FlushWorker<T: Types> {
     /// `Relaxed` is sufficient because the actual data synchronization is
     /// provided by the `RwLock` on `PayloadCache`.
     done_seq: Arc<AtomicU64>,
+
+    /// The last sync failed and no sync has succeeded since: what was written
+    /// before it (e.g. a purge record) may not be on disk.
+    sync_failed: bool,
+
+    /// Chunk files whose removal was requested while `sync_failed` was set.
+    /// They are removed, oldest first, with the next removal request that
+    /// follows a successful sync.
+    deferred_remove: Vec<String>,
 }
 
 impl<T: Types> FlushWorker<T> {
@@ -97,6 +106,8 @@ impl<T: Types> FlushWorker<T> {
             files: vec![file_entry],
             cache,
             done_seq,
+            sync_failed: false,
+            deferred_remove: Vec::new(),
         }
     }
 
@@ -171,6 +182,7 @@ impl<T: Types> FlushWorker<T> {
                 let sync_result = if need_sync {
                     let upto_offset = batch.last().unwrap().upto_offset;
                     let res = self.sync_all_files(upto_offset);
+                    self.sync_failed = res.is_err();
                     if let Err(ref e) = res {
                         log::error!(
                             "Failed to flush upto offset {}: {}",
@@ -246,7 +258,18 @@ impl<T: Types> FlushWorker<T> {
             }
             WorkerRequest::RemoveChunks { chunk_paths } => {
                 info!("FlushWorker: RemoveChunks: {:?}", chunk_paths);
-                for path in chunk_paths {
+                self.deferred_remove.extend(chunk_paths);
+                if self.sync_failed {
+                    // The purge record that makes these chunks obsolete was
+                    // written before a sync that failed: it may not be on
+                    // disk, so the chunks must be kept for now.
+                    log::error!(
+                        "FlushWorker: sync failed, defer removing: {:?}",
+                        self.deferred_remove
+                    );
+                    return Ok(());
+                }
+                for path in std::mem::take(&mut self.deferred_remove) {
                     std::fs::remove_file(path)?;
                 }
             }
